@@ -105,7 +105,7 @@ def classify(case, obs, fails):
     return None
 
 
-def run_pipeline_stream(res, rng, cases, label):
+def run_pipeline_stream(res, rng, cases, label, chunk=150):
     '''Tie + oracle on a list of abstract cases.'''
     coq_cases, metas = [], []
     for case in cases:
@@ -137,7 +137,7 @@ def run_pipeline_stream(res, rng, cases, label):
         res.sample({'case': describe(metas[0][0]),
                     'observed': repr(metas[0][1])[:1500]})
     bad, errs = common.run_case_files(f'c01_{label}', HEADER, 'case',
-                                      'check_case', coq_cases, chunk=150)
+                                      'check_case', coq_cases, chunk=chunk)
     res.obligation(f'tie:pipeline/{label} ({len(coq_cases)} cases: model = '
                    'implementation on table, counter, caches, pruning, file)',
                    not bad and not errs,
@@ -193,22 +193,35 @@ def run(res, tier, seed, proofs_ok):
 
 
 def run_exhaustive(res, rng):
-    '''All trees with <= 4 internal nodes over 2 surfaces (arity <= 3).'''
+    '''Every tree over 2 surfaces (4 literals) with <= 3 internal nodes of
+    arity <= 2 and with <= 2 internal nodes of arity <= 3; 40 000 random trees
+    with exactly 4 internal nodes (the full set has > 4e5 members for arity 2).'''
     from collections import OrderedDict
+    trees = []
+    for n in range(0, 4):
+        trees += G.all_trees(n, max_arity=2)
+    for n in range(1, 3):
+        trees += [t for t in G.all_trees(n, max_arity=3)
+                  if any(len(k[1]) == 3 for k in walk(t))]
+    res.count('exhaustive:enumerated', len(trees))
+    trees += [G.random_tree_n(rng, 4) for _ in range(40000)]
     cases = []
-    for n in range(0, 5):
-        trees = G.all_trees(n)
-        if len(trees) > 40000:
-            trees = rng.sample(trees, 40000)
-        for tree in trees:
-            cells = OrderedDict()
-            cells[1] = {'geom': tree, 'orig': [], 'imp': 1}
-            cases.append({'cells': cells, 'order': [1],
-                          'matching': OrderedDict([(1, [1]), (2, [-2])]),
-                          'u0': 4, 'u1': 5, 'cnt0': 2, 'rn': None,
-                          'skipped': [], 'partition': False})
+    for tree in trees:
+        cells = OrderedDict()
+        cells[1] = {'geom': tree, 'orig': [], 'imp': 1}
+        cases.append({'cells': cells, 'order': [1],
+                      'matching': OrderedDict([(1, [1]), (2, [-2])]),
+                      'u0': 4, 'u1': 5, 'cnt0': 2, 'rn': None,
+                      'skipped': [], 'partition': False})
     res.count('exhaustive:trees', len(cases))
-    run_pipeline_stream(res, rng, cases, 'exhaustive')
+    run_pipeline_stream(res, rng, cases, 'exhaustive', chunk=2000)
+
+
+def walk(tree):
+    if tree[0] in '*:':
+        yield tree
+        for kid in tree[1]:
+            yield from walk(kid)
 
 
 def replay(path):
